@@ -604,6 +604,10 @@ pub struct Style {
     /// put the comma after block arms
     pub comma_after_block_arm: bool,
     pub final_newline: bool,
+    /// write the second arm of a match first (Right before Left, Some before None, true before false)
+    pub swap_arms: bool,
+    /// white space (with line breaks) in front of the first item
+    pub leading_blank: bool,
     pub seed: u64,
 }
 
@@ -620,6 +624,8 @@ impl Style {
             blank_lines: 1,
             comma_after_block_arm: true,
             final_newline: true,
+            swap_arms: false,
+            leading_blank: false,
             seed: 0,
         }
     }
@@ -635,6 +641,8 @@ impl Style {
             blank_lines: rng.below(3),
             comma_after_block_arm: rng.chance(1, 2),
             final_newline: rng.chance(3, 4),
+            swap_arms: rng.chance(1, 3),
+            leading_blank: rng.chance(1, 4),
             seed: rng.next(),
         }
     }
@@ -1001,7 +1009,8 @@ impl<'a> Renderer<'a> {
                 self.sp();
                 self.tok("{");
                 self.depth += 1;
-                for arm in arms.iter() {
+                let order: [usize; 2] = if self.st.swap_arms && self.rng.chance(1, 2) { [1, 0] } else { [0, 1] };
+                for arm in order.iter().map(|k| &arms[*k]) {
                     self.nl();
                     self.match_pat(&arm.pat);
                     self.sp();
@@ -1079,6 +1088,12 @@ impl<'a> Renderer<'a> {
     }
 
     pub fn program(mut self, p: &Program) -> Rendered {
+        if self.st.leading_blank {
+            let lead = [self.st.nl, " ", self.st.nl];
+            for part in lead.iter().take(1 + (self.st.seed % 3) as usize) {
+                self.out.push_str(part);
+            }
+        }
         for (i, item) in p.items.iter().enumerate() {
             if i > 0 {
                 for _ in 0..=self.st.blank_lines {
